@@ -1261,3 +1261,205 @@ func sortDesc(evs []*mocrelay.Event) {
 		}
 	}
 }
+
+// TestMergeScale: the merge rules at sizes the step-by-step exploration does not reach.
+// (a) 63-70 children: the merged EOSE waits for the very last child, whichever index it has;
+// (b) one EVENT stays unanswered by a slow child while more than a thousand others are
+// submitted and answered: its OK still arrives when the slow child answers;
+// (c) 9-40 COUNT queries with one subscription id in flight, the children answering at
+// different paces: every query gets the maximum of the two replies that belong to it.
+func TestMergeScale(t *testing.T) {
+	c08 := ev.For("C08").SetRule(c08Rule)
+	c09 := ev.For("C09").SetRule(c09Rule)
+	rapid.Check(t, func(t *rapid.T) {
+		shape := rapid.SampledFrom([]string{"many-children", "slow-ok", "deep-count"}).Draw(t, "shape")
+		if (shape == "many-children") != mergeFocus("C08") && os.Getenv("VERIF_FOCUS") != "" {
+			// the other property's share of this test
+			if mergeFocus("C08") {
+				shape = "many-children"
+			} else if shape == "many-children" {
+				shape = "slow-ok"
+			}
+		}
+		desc := map[string]any{"mode": "scale", "shape": shape}
+		var rig *mergeRig
+		fail := func(p, sig, clause, obs string) {
+			if rig != nil {
+				rig.close()
+			}
+			hx.Fail(t, ev.Failure{Property: p, Signature: sig, Clause: clause, Case: desc, Observed: obs})
+		}
+		must := func(err error) {
+			if err != nil {
+				fail(map[bool]string{true: "C08", false: "C09"}[shape == "many-children"], "stalled", "the merged handler keeps working", err.Error())
+			}
+		}
+		authors := gen.Pubkeys(1)
+		switch shape {
+		case "many-children":
+			n := rapid.SampledFrom([]int{63, 64, 65, 66, 70, 130}).Draw(t, "children")
+			last := rapid.OneOf(rapid.IntRange(0, n-1), rapid.IntRange(n-7, n-1)).Draw(t, "last_child")
+			desc["children"], desc["last_child_to_finish"] = n, last
+			rig = newMergeRig(n)
+			must(rig.clientSend(&mocrelay.ClientReqMsg{SubscriptionID: "a", ReqFilters: []*mocrelay.ReqFilter{{}}}))
+			for i := 0; i < n; i++ {
+				_, err := rig.childRecv(i)
+				must(err)
+			}
+			order := rapid.Permutation(intRange(n)).Draw(t, "eose_order")
+			for _, i := range order {
+				if i == last {
+					continue
+				}
+				out, err := rig.childEmit(i, mocrelay.NewServerEOSEMsg("a"))
+				must(err)
+				if len(out) != 0 {
+					fail("C08", "eose-early-or-repeated", "no EOSE before every child has sent its own (child "+fmt.Sprint(last)+" of "+fmt.Sprint(n)+" has not)", hx.JSON(briefServers(out)))
+				}
+			}
+			e := &mocrelay.Event{Pubkey: authors[0], Kind: 1, CreatedAt: 50, Tags: []mocrelay.Tag{}, Content: "held by the last child"}
+			gen.Seal(e)
+			out, err := rig.childEmit(last, mocrelay.NewServerEventMsg("a", e))
+			must(err)
+			if len(out) != 1 {
+				fail("C08", "stored-event-dropped", "a matching stored event of a child that has not finished is forwarded before the merged EOSE", hx.JSON(briefServers(out)))
+			} else if em, is := out[0].(*mocrelay.ServerEventMsg); !is || em.Event.ID != e.ID || em.SubscriptionID != "a" {
+				fail("C08", "stored-event-dropped", "a matching stored event of a child that has not finished is forwarded before the merged EOSE", hx.JSON(briefServers(out)))
+			}
+			out, err = rig.childEmit(last, mocrelay.NewServerEOSEMsg("a"))
+			must(err)
+			if len(out) != 1 {
+				fail("C08", "merged-eose-missing", "the client receives one EOSE once every child has sent its own", hx.JSON(briefServers(out)))
+			} else if eo, is := out[0].(*mocrelay.ServerEOSEMsg); !is || eo.SubscriptionID != "a" {
+				fail("C08", "merged-eose-missing", "the client receives one EOSE once every child has sent its own", hx.JSON(briefServers(out)))
+			}
+			must(rig.close())
+			c08.Label("scale:many-children")
+			c08.Case(n > 64, hx.JSON(desc), func() any { return desc })
+		case "slow-ok":
+			k := rapid.SampledFrom([]int{300, 1023, 1024, 1025, 1100, 2100}).Draw(t, "others")
+			desc["events_while_one_waits"] = k
+			rig = newMergeRig(2)
+			mk := func(i int) *mocrelay.Event {
+				e := &mocrelay.Event{Pubkey: authors[0], Kind: 1, CreatedAt: int64(1000 + i), Tags: []mocrelay.Tag{}, Content: fmt.Sprint("slow-ok ", i)}
+				gen.Seal(e)
+				return e
+			}
+			slow := mk(-1)
+			must(rig.clientSend(&mocrelay.ClientEventMsg{Event: slow}))
+			for i := 0; i < 2; i++ {
+				_, err := rig.childRecv(i)
+				must(err)
+			}
+			out, err := rig.childEmit(0, mocrelay.NewServerOKMsg(slow.ID, true, "", ""))
+			must(err)
+			if len(out) != 0 {
+				fail("C09", "ok-early", "no OK before every child has answered the request", hx.JSON(briefServers(out)))
+			}
+			for i := 0; i < k; i++ {
+				e := mk(i)
+				must(rig.clientSend(&mocrelay.ClientEventMsg{Event: e}))
+				for c := 0; c < 2; c++ {
+					_, err := rig.childRecv(c)
+					must(err)
+				}
+				first := i % 2
+				out, err := rig.childEmit(first, mocrelay.NewServerOKMsg(e.ID, true, "", ""))
+				must(err)
+				if len(out) != 0 {
+					fail("C09", "ok-early", "no OK before every child has answered the request", hx.JSON(briefServers(out)))
+				}
+				out, err = rig.childEmit(1-first, mocrelay.NewServerOKMsg(e.ID, i%5 != 0, "", "x"))
+				must(err)
+				if len(out) != 1 {
+					fail("C09", "ok-missing", "every EVENT is answered by exactly one OK (when the last child answered)", fmt.Sprintf("event %d of %d: %s", i, k, hx.JSON(briefServers(out))))
+				} else if o, is := out[0].(*mocrelay.ServerOKMsg); !is || o.EventID != e.ID || o.Accepted != (i%5 != 0) {
+					fail("C09", "ok-verdict", "the aggregated OK carries the event's id and accepts iff every child accepted", fmt.Sprintf("event %d of %d: %s", i, k, hx.JSON(briefServers(out))))
+				}
+			}
+			out, err = rig.childEmit(1, mocrelay.NewServerOKMsg(slow.ID, true, "", ""))
+			must(err)
+			if len(out) != 1 {
+				fail("C09", "ok-missing", "every EVENT is answered by exactly one OK: the slow child's answer completes the oldest request, however many others were answered meanwhile", hx.JSON(briefServers(out)))
+			} else if o, is := out[0].(*mocrelay.ServerOKMsg); !is || o.EventID != slow.ID || !o.Accepted {
+				fail("C09", "ok-verdict", "the aggregated OK carries the event's id and accepts iff every child accepted", hx.JSON(briefServers(out)))
+			}
+			must(rig.close())
+			c09.Label("scale:slow-ok")
+			c09.Case(k > 1024, hx.JSON(desc), func() any { return desc })
+		default:
+			k := rapid.SampledFrom([]int{8, 9, 12, 17, 33, 40}).Draw(t, "counts_in_flight")
+			desc["counts_in_flight"] = k
+			rig = newMergeRig(2)
+			sent, recvd := 0, [2]int{}
+			answered := [2]int{}
+			val := func(c, i int) uint64 { return uint64(100*(c+1) + (i*7)%50) }
+			completed := 0
+			var trace []string
+			desc["schedule"] = &trace
+			for completed < k {
+				var acts []string
+				if sent < k {
+					acts = append(acts, "send", "send")
+				}
+				for c := 0; c < 2; c++ {
+					if recvd[c] < sent && (c == 0 || recvd[0] > recvd[1]) {
+						acts = append(acts, fmt.Sprint("recv", c))
+					}
+					if answered[c] < recvd[c] {
+						acts = append(acts, fmt.Sprint("ans", c), fmt.Sprint("ans", c))
+					}
+				}
+				a := rapid.SampledFrom(acts).Draw(t, fmt.Sprint("act", len(trace)))
+				trace = append(trace, a)
+				switch {
+				case a == "send":
+					// the broadcast is in order: child 0 takes a query before child 1 does, and the
+					// merger hands out one message at a time
+					for c := 0; c < 2; c++ {
+						for recvd[c] < sent {
+							_, err := rig.childRecv(c)
+							must(err)
+							recvd[c]++
+						}
+					}
+					must(rig.clientSend(&mocrelay.ClientCountMsg{SubscriptionID: "q", ReqFilters: []*mocrelay.ReqFilter{{}}}))
+					sent++
+				case a[:4] == "recv":
+					c := int(a[4] - '0')
+					_, err := rig.childRecv(c)
+					must(err)
+					recvd[c]++
+				default:
+					c := int(a[3] - '0')
+					i := answered[c]
+					out, err := rig.childEmit(c, mocrelay.NewServerCountMsg("q", val(c, i), nil))
+					must(err)
+					answered[c]++
+					if answered[0] > completed && answered[1] > completed {
+						want := max(val(0, completed), val(1, completed))
+						if len(out) != 1 {
+							fail("C09", "count-missing", "every COUNT is answered by exactly one COUNT reply (when the last child answered)", fmt.Sprintf("query %d of %d: %s", completed, k, hx.JSON(briefServers(out))))
+						} else if cm, is := out[0].(*mocrelay.ServerCountMsg); !is || cm.SubscriptionID != "q" || cm.Count != want {
+							fail("C09", "count-value", "the COUNT reply carries the maximum of the children's counts for that query", fmt.Sprintf("query %d of %d: got %s, want %d", completed, k, hx.JSON(briefServers(out)), want))
+						}
+						completed++
+					} else if len(out) != 0 {
+						fail("C09", "count-early", "no COUNT reply before every child has answered", hx.JSON(briefServers(out)))
+					}
+				}
+			}
+			must(rig.close())
+			c09.Label("scale:deep-count")
+			c09.Case(k > 8, hx.JSON(desc), func() any { return desc })
+		}
+	})
+}
+
+func intRange(n int) []int {
+	out := make([]int, n)
+	for i := range out {
+		out[i] = i
+	}
+	return out
+}
